@@ -538,8 +538,25 @@ def run_type_assignment(
     for cell in result:
         for parent_level, child_level in zip(level_list[:-1], level_list[1:]):
             if cell[child_level]['avg_correlation'] is None:
+                if parent_level is None:
+                    # the top level of the taxonomy has a single node;
+                    # there is no coarser level to inherit from
+                    continue
                 cell[child_level]['avg_correlation'] = \
                     cell[parent_level]['avg_correlation']
+
+        # Levels that are still empty sit above the first level at which
+        # an actual choice was made; use that (finer) level's value.
+        # If no choice was made anywhere (single-leaf taxonomy) the
+        # assignment is trivially perfect.
+        for parent_level, child_level in zip(hierarchy[-2::-1],
+                                             hierarchy[-1:0:-1]):
+            if cell[parent_level]['avg_correlation'] is None:
+                cell[parent_level]['avg_correlation'] = \
+                    cell[child_level]['avg_correlation']
+        for level in hierarchy:
+            if cell[level]['avg_correlation'] is None:
+                cell[level]['avg_correlation'] = 1.0
 
     # add aggregate_probability (the product of bootstrapping_probability)
     # across levels in the taxonomy
